@@ -299,3 +299,96 @@ impl Monitor for C04Frame {
         out
     }
 }
+
+// =============================================================================================
+// C15, history side: an instruction that names pool X changes no account that belongs to another pool
+// =============================================================================================
+
+/// For every instruction of every landed transaction that names at least one pool: each account it changed that
+/// carries a pool reference (tick array, position, oracle, lock record) must reference one of the named pools, and a
+/// token vault (swap or reward vault) of any pool may lose tokens only if that pool is named. Complements the
+/// substitution matrix on forks: this one judges what actually landed, whoever crafted it.
+pub struct C15Frame;
+
+fn v15(class: &str, idx: usize, detail: String) -> Violation {
+    Violation { property: "C15", class: class.to_string(), detail, event_idx: idx }
+}
+
+impl Monitor for C15Frame {
+    fn name(&self) -> &'static str {
+        "C15"
+    }
+    fn on_landed(&mut self, ev: &Landed, cov: &mut Coverage) -> Vec<Violation> {
+        let mut out = Vec::new();
+        if !ev.out.ok {
+            return out;
+        }
+        for v in ev.ix_views() {
+            if v.ix.program_id != ix::wp() {
+                continue;
+            }
+            let Some(c) = crate::wpix::decode(v.ix) else { continue };
+            let mut keys: Vec<Pubkey> = Vec::new();
+            for m in &v.ix.accounts {
+                if !keys.contains(&m.pubkey) {
+                    keys.push(m.pubkey);
+                }
+            }
+            let named: Vec<Pubkey> = keys.iter().filter(|k| wp_owned(v.pre, k).and_then(decode::pool).is_some() || wp_owned(v.post, k).and_then(decode::pool).is_some()).cloned().collect();
+            if named.is_empty() {
+                continue;
+            }
+            let mut all_pools: Option<Vec<(Pubkey, Pool)>> = None;
+            for k in &keys {
+                let (pa, pb) = (v.pre.get(k), v.post.get(k));
+                let changed = match (pa, pb) {
+                    (Some(a), Some(b)) => a.data != b.data || a.lamports != b.lamports,
+                    (None, None) => false,
+                    _ => true,
+                };
+                if !changed {
+                    continue;
+                }
+                // program accounts that carry a pool reference
+                for d in [wp_owned(v.pre, k), wp_owned(v.post, k)].into_iter().flatten() {
+                    let owner_pool: Option<Pubkey> = if let Some(p) = decode::position(d) {
+                        Some(p.whirlpool)
+                    } else if let Ok(t) = decode::tick_array(d) {
+                        Some(t.whirlpool)
+                    } else if let Some(o) = decode::oracle(d) {
+                        Some(o.whirlpool)
+                    } else {
+                        decode::lock_config(d).map(|l| l.whirlpool)
+                    };
+                    if let Some(op) = owner_pool {
+                        cov.probe("frame_pool_bound_account_changes_judged");
+                        if !named.contains(&op) {
+                            out.push(v15("foreign_account_changed", ev.idx, format!("{} names pool(s) {:?} but changed account {} which belongs to pool {}", c.name(), named, k, op)));
+                            return out;
+                        }
+                    }
+                }
+                // token vaults of pools: may lose tokens only if their pool is named
+                if let (Some(a), Some(b)) = (pa, pb) {
+                    if (a.owner == ix::tok() || a.owner == ix::tok22()) && a.data.len() >= 72 && b.data.len() >= 72 {
+                        let (x, y) = (u64::from_le_bytes(a.data[64..72].try_into().unwrap()), u64::from_le_bytes(b.data[64..72].try_into().unwrap()));
+                        if y < x {
+                            let pools = all_pools.get_or_insert_with(|| decode::pools(v.pre));
+                            for (pk, p) in pools.iter() {
+                                let is_vault = p.vault_a == *k || p.vault_b == *k || p.rewards.iter().any(|r| r.initialized() && r.vault == *k);
+                                if is_vault {
+                                    cov.probe("frame_vault_payouts_judged");
+                                    if !named.contains(pk) {
+                                        out.push(v15("foreign_vault_paid_out", ev.idx, format!("{} names pool(s) {:?} but took {} tokens out of {}, a vault of pool {}", c.name(), named, x - y, k, pk)));
+                                        return out;
+                                    }
+                                }
+                            }
+                        }
+                    }
+                }
+            }
+        }
+        out
+    }
+}
